@@ -429,9 +429,11 @@ func SetSlice(dest reflect.Value, objects interface{}) error {
 	if h, ok := v.Interface().(*_refHolder); ok {
 		h.add(dest)
 		// a reference to a list that is already complete is never notified
-		// again: take the value the holder has now
-		if h.value.IsValid() {
-			if cv, err := ConvertSliceValueType(destTyp, h.value); err == nil && cv.IsValid() {
+		// again: take the value the holder has now (converted at most once
+		// per type, however many references there are). A list that is still
+		// being read notifies its destinations when it is complete.
+		if h.done && h.value.IsValid() {
+			if cv, err := h.valueAs(destTyp); err == nil && cv.IsValid() {
 				SetValue(dest, cv)
 			}
 		}
